@@ -29,6 +29,8 @@ def cases(tier, seed):
         if i % 4 in (0, 1):        # two-digit field counts in 2D and 3D (the count is part of every FAB header)
             c["gen"]["nfields"] = 10 + (i // 4) % 3
             c["gen"]["nlevels"] = min(c["gen"]["nlevels"], 2)
+        if i % 8 == 4:             # a maximum whose text is longer than the text of every minimum of its level
+            c["long_max"] = True
         if i % 8 in (2, 7):        # unusual but valid names (metacharacters beside their look-alikes, blanks, UTF-8)
             nf = c["gen"].pop("nfields", 4)
             c["gen"]["names"] = gen.odd_names(random.Random(seed * 37 + i), max(3, min(nf, 8)), blanks=True, nonascii=True)
